@@ -321,6 +321,12 @@ def main(chk):
     import checks.c08 as c08mod
     for qa, qb in ((1, 1), (2, 2)):
         tasks.append((c08mod.o2_hash, (prog, qa, 0, qb, 0, True, 'C11')))
+    # client-controlled bytes come back: a server quotes the offending statement in its ErrorResponse, in the CLIENT's encoding; on a connection
+    # with a statement cache the pooler parses that message.  Whatever the bytes, the reply is relayed and the connection stays in step
+    # (otherwise the next client of that connection reads this client's reply) -- the C03 obligation instantiated for this property
+    import checks.c03 as c03mod
+    for n in (1, 3):
+        tasks.append((c03mod.o2_recv_error, (prog, n, 'C11')))
     prog_off = chk.program('off')
     for pr, fl in ((prog, 'on'), (prog_off, 'off')):
         tasks.append((o1_read_message, (pr, -6, 3, 2, fl)))
